@@ -706,7 +706,8 @@ def check_totality(ctx, oid="C06.1"):
     # lengths of valid segwit addresses: hrp (bc/tb: 2, bcrt: 4) + '1' + version + ceil(8n/5) + 6 for program lengths n in 2..40
     seg_lens = sorted({hl + 2 + -(-8 * n // 5) + 6 for hl in (2, 4) for n in range(2, 41)})
     for q in ("bits.utils.is_segwit_addr", "bits.utils.is_addr"):
-        rules.early_verdicts_agree(ctx, q, oid, seg_lens if ctx.thorough else [seg_lens[0], seg_lens[1], 42, 44, 62, 64, seg_lens[-3], seg_lens[-2], seg_lens[-1]], "valid segwit addresses")
+        rules.early_verdicts_agree(ctx, q, oid, seg_lens if ctx.thorough else [seg_lens[0], seg_lens[1], 42, 44, 62, 64, seg_lens[-3], seg_lens[-2], seg_lens[-1]], "valid segwit addresses",
+                                  prefixes=(b"bc1", b"BC1", b"tb1", b"TB1", b"bcrt1", b"BCRT1"))
     fb = ctx.fn("bits.base58.is_base58check")
     sb = ev.run(fb)
     R.check(oid, "EXC", fb, "is_base58check catches every exception", not sb.raises() and any(
